@@ -1,100 +1,26 @@
 /-
-Props/C02.lean — property theorems for C02 ("requests never modify user inputs
-or values already handed out").  ONLY property statements and non-vacuity
-examples; the proofs are in Lemmas/Heap.lean.
+Props/C02.lean — property theorems for C02 about the code as it is NOW.
+The program-independent theorems (T1 `check_sound`, T1' `returned_allocated`,
+T1c `check_sound_containers`, T1n `check_sound_helpers`, T3 `history_sound`)
+are stated in Props/C02Core.lean, imported here.
 
-Model (Model/Heap.lean, hand-written): every array / list / dict owns a root;
-views share the root of their base; `aver r` counts in-place changes of array
-contents, `cver r` in-place changes of any kind.  `exec` runs alias-IR
-statements on a concrete heap; `request` runs one function as a user request.
-`checkWith p S` is the may-alias check for a summary table `S`.
-
-Generated (Gen/AliasIR.lean, regenerated from the ASTs of core.py, maths.py,
-finitedifference.py, numerical.py, time.py, reading.py on every run): one
-alias-IR body per function, `program`.  Gen/AliasSumm.lean: the summary table
-found by the (untrusted) compiled analysis; Gen/AliasCheck.lean: `checkWith
-program summaries = true`, decided by the kernel in chunks.
-
-Every root that is `< h.next` when a request starts existed before it: the
-arguments, everything in `rel.data` / attributes / globals, everything
-returned earlier.  "Protected" in DESIGN.md = exactly these roots.
+Gen/AliasIR.lean is regenerated from the ASTs of core.py, maths.py,
+finitedifference.py, numerical.py, time.py, reading.py on every run;
+Gen/AliasSumm.lean is the summary table found by the (untrusted) compiled
+analysis; Gen/AliasChk*.lean + Gen/AliasCheck.lean: the kernel decides
+`checkWith program summaries = true`.
 -/
-import AurelVerif.Lemmas.Heap
+import AurelVerif.Props.C02Core
 import AurelVerif.Gen.AliasCheck
 
 namespace AurelVerif.C02
 open AurelVerif.Heap
-
-/-- **T1** `check_sound`.  For EVERY alias-IR program, EVERY summary table that passes the
-check, EVERY public function of it, EVERY initial heap, argument list, oracle (branch
-conditions, loop trip counts) and fuel: a request that finishes leaves the array-contents
-version of every root that existed before the request unchanged; and every root the returned
-value can reach is either such a root — then unmodified — or was allocated during the request. -/
-theorem check_sound (p : Program) (S : List Summ) (hchk : checkWith p S = true)
-    (f : FnId) (fn : Fn) (hf : p.fns[f]? = some fn) (hpub : fn.pub = true)
-    (fuel : Nat) (args : List Val) (h : Heap) (ch : List Bool) (v : Val) (h' : Heap)
-    (hreq : request p fuel f args h ch = some (v, h')) :
-    (∀ r, r < h.next → h'.aver r = h.aver r) ∧
-    (∀ r ∈ v.reach, (r < h.next ∧ h'.aver r = h.aver r) ∨ h.next ≤ r) :=
-  check_sound_lemma p S hchk f fn hf hpub fuel args h ch v h' hreq
-
-/-- T1 for the check as `aliasCheck` computes it (summaries iterated to a fixed point with
-fuel = number of functions, then re-checked). -/
-theorem check_sound_aliasCheck (p : Program) (hchk : aliasCheck p = true)
-    (f : FnId) (fn : Fn) (hf : p.fns[f]? = some fn) (hpub : fn.pub = true)
-    (fuel : Nat) (args : List Val) (h : Heap) (ch : List Bool) (v : Val) (h' : Heap)
-    (hreq : request p fuel f args h ch = some (v, h')) :
-    (∀ r, r < h.next → h'.aver r = h.aver r) ∧
-    (∀ r ∈ v.reach, (r < h.next ∧ h'.aver r = h.aver r) ∨ h.next ≤ r) :=
-  check_sound_lemma p p.summaries hchk f fn hf hpub fuel args h ch v h' hreq
-
-/-- **T1'** the fresh half made precise: on a well-formed heap (every root that the
-arguments and the cache mention has been allocated) every root of the returned value was
-allocated before the end of the request, i.e. "fresh" means allocated *during* it. -/
-theorem returned_allocated (p : Program) (f : FnId)
-    (fuel : Nat) (args : List Val) (h : Heap) (ch : List Bool) (v : Val) (h' : Heap)
-    (hargs : ∀ a ∈ args, ValWF h.next a) (hcache : ∀ kv ∈ h.cache, ValWF h.next kv.2)
-    (hreq : request p fuel f args h ch = some (v, h')) :
-    ValWF h'.next v ∧ (∀ kv ∈ h'.cache, ValWF h'.next kv.2) ∧ h.next ≤ h'.next :=
-  request_wf p f fuel args h ch v h' hargs hcache hreq
-
-/-- **T1c** save/read functions (`strict` and `cpub`): argument lists / dicts are protected
-too — no in-place change of any kind to anything that existed before the call. -/
-theorem check_sound_containers (p : Program) (S : List Summ) (hchk : checkWith p S = true)
-    (f : FnId) (fn : Fn) (hf : p.fns[f]? = some fn) (hs : fn.strict = true) (hc : fn.cpub = true)
-    (fuel : Nat) (args : List Val) (h : Heap) (ch : List Bool) (v : Val) (h' : Heap)
-    (hreq : request p fuel f args h ch = some (v, h')) :
-    ∀ r, r < h.next → h'.cver r = h.cver r :=
-  check_sound_containers_lemma p S hchk f fn hf hs hc fuel args h ch v h' hreq
-
-/-- **T1n** any function, public or not: a pre-existing root whose array contents changed is
-(reachable from) an argument the function's summary names — never a cache entry, a global,
-or an object the caller did not pass. -/
-theorem check_sound_helpers (p : Program) (S : List Summ) (hchk : checkWith p S = true)
-    (f : FnId) (fn : Fn) (hf : p.fns[f]? = some fn)
-    (fuel : Nat) (args : List Val) (h : Heap) (ch : List Bool) (v : Val) (h' : Heap)
-    (hreq : request p fuel f args h ch = some (v, h')) :
-    ∀ r, r < h.next → h'.aver r ≠ h.aver r →
-      ∃ i, (2 * i + 1 ∈ (getE Summ.bot S f).mutA ∧ r ∈ (getV args i).own) ∨
-           (2 * i + 2 ∈ (getE Summ.bot S f).mutA ∧ r ∈ (getV args i).reach) :=
-  check_sound_helpers_lemma p S hchk f fn hf fuel args h ch v h' hreq
 
 /-- **D2** `aurel_alias_ok`: the alias IR generated from the current source passes the check
 (kernel-decided in chunks, Gen/AliasChk*.lean). -/
 theorem aurel_alias_ok :
     checkWith AurelVerif.Gen.AliasIR.program AurelVerif.Gen.AliasIR.summaries = true :=
   AurelVerif.Gen.AliasIR.program_checked
-
-/-- **T3** composition, for every program that passes the check and every user history of
-`alloc` / `put` (hand an object to the library) / public requests (any fuel, any oracle): once
-a root exists — an input, or something returned or cached by an earlier request — the version
-of its array contents never changes again, whatever is requested afterwards. -/
-theorem history_sound (p : Program) (S : List Summ) (hchk : checkWith p S = true)
-    (pre post : List Step) (h₀ hm h' : Heap)
-    (hpub : publicOnly p post)
-    (hpre : run p h₀ pre = some hm) (hpost : run p hm post = some h') :
-    ∀ r, r < hm.next → h'.aver r = hm.aver r :=
-  history_sound_lemma p S hchk pre post h₀ hm h' hpub hpre hpost
 
 /-- T3 for the code as it is now. -/
 theorem aurel_history_sound (pre post : List Step) (h₀ hm h' : Heap)
@@ -103,39 +29,6 @@ theorem aurel_history_sound (pre post : List Step) (h₀ hm h' : Heap)
     (hpost : run AurelVerif.Gen.AliasIR.program hm post = some h') :
     ∀ r, r < hm.next → h'.aver r = hm.aver r :=
   history_sound_lemma _ _ aurel_alias_ok pre post h₀ hm h' hpub hpre hpost
-
-/-! Non-vacuity and sharpness. -/
-
-open Stmt in
-/-- "Cdown = self[k]; Cdown[...] += …; return Cdown" — the defect fixed in e28c753. -/
-def weylBad : Program :=
-  { fns := [⟨seq (cached 1 7) (seq (mutate 1) (ret 1)), true, false, false⟩], keys := [] }
-
-open Stmt in
-/-- the same with `.copy()` -/
-def weylGood : Program :=
-  { fns := [⟨seq (cached 1 7) (seq (join 2 []) (seq (mutate 2) (ret 2))), true, false, false⟩], keys := [] }
-
-example : aliasCheck weylBad = false := by decide +kernel
-example : aliasCheck weylGood = true := by decide +kernel
-
-/-- the check is not vacuous: the bad program really bumps the version of the cached root 0
-(heap with one cached array, root 0, under key 7) -/
-example :
-    (request weylBad 10 0 [] ⟨fun _ => 0, fun _ => 0, 1, [(7, ⟨0, [0], [0]⟩)]⟩ []).map
-      (fun r => (r.1.own, r.2.aver 0)) = some ([0], 1) := by decide +kernel
-
-/-- and the good one returns a new root and leaves root 0 alone -/
-example :
-    (request weylGood 10 0 [] ⟨fun _ => 0, fun _ => 0, 1, [(7, ⟨0, [0], [0]⟩)]⟩ []).map
-      (fun r => (r.1.own, r.2.aver 0)) = some ([1], 0) := by decide +kernel
-
-open Stmt in
-/-- a helper that multiplies its argument in place and returns it is accepted only as a
-non-public function, and only while no caller passes it a protected object -/
-example : aliasCheck { fns := [⟨seq (param 1 0) (seq (mutate 1) (ret 1)), false, false, false⟩,
-                               ⟨seq (cached 1 3) (seq (call 2 0 [1]) (ret 2)), true, false, false⟩],
-                       keys := [] } = false := by decide +kernel
 
 example : AurelVerif.Gen.AliasIR.program.fns.length = AurelVerif.Gen.AliasIR.summaries.length := by
   decide +kernel
